@@ -105,6 +105,8 @@ theorem handshake_cases (ra : Ra) (ph : Nat) (p : Pkt) :
       simp only
       split
       · exact Or.inl ⟨rfl, _, rfl⟩
+      split
+      · exact Or.inl ⟨rfl, _, rfl⟩
       · cases hc : credit d.gi.accounts ra.bal with
         | none => exact Or.inl ⟨rfl, _, rfl⟩
         | some bal' =>
@@ -127,6 +129,24 @@ theorem handshake_cases (ra : Ra) (ph : Nat) (p : Pkt) :
                 obtain ⟨rfl, rfl⟩ := h
                 simp only [Bool.or_eq_true, bne_iff_ne, ne_eq, not_or, Bool.not_eq_true, Decidable.not_not] at hs
                 exact ⟨hs.1, hs.2⟩
+
+/-- a handshake succeeds on a native-denom rollapp only when no metadata of its IBC denom exists yet -/
+theorem handshake_ok_md {ra : Ra} {ph : Nat} {d : GBData} (h : (handshake ra ph (.gb d)).2 = .ok)
+    (hd : d.gi.denom.isSet = true) : ra.md = false := by
+  revert h
+  unfold handshake
+  simp only
+  cases hv : validate d ra.gi with
+  | some e => intro h; exact absurd h (by simp)
+  | none =>
+    simp only
+    split
+    · intro h; exact absurd h (by simp)
+    split
+    · intro h; exact absurd h (by simp)
+    · rename_i hm
+      intro _
+      simpa [hd] using hm
 
 theorem handshake_err_unchanged {ra : Ra} {ph : Nat} {p : Pkt} (h : (handshake ra ph p).2 ≠ .ok) : (handshake ra ph p).1 = ra := by
   rcases handshake_cases ra ph p with ⟨h1, _⟩ | ⟨_, _, _, _, _, h2, _⟩
